@@ -178,8 +178,13 @@ func genPipeScenario(rc *RunCtx, allowStdin bool, maxLinesPerInput int) *pipeSce
 	if !sc.Stdin {
 		nIn = t.WRange(1, 4)
 	}
+	oddNames := t.WBool(1, 6)
 	for i := 0; i < nIn; i++ {
 		name := fmt.Sprintf("f%d.log", i)
+		if oddNames {
+			// names with characters that mean something to printf, to a shell or to a glob: a name is data wherever it is shown
+			name = []string{"f0%d.log", "100%s.log", "f2%.log", "f3%!v{0}.log"}[i]
+		}
 		if sc.Stdin {
 			name = "<stdin>"
 		}
